@@ -13,6 +13,7 @@ TWEAKS = {
     "C02": {"ttno": 8.0, "ttno_same": 4.0, "ttns_random": 1.0, "add": 0.3, "scale": 0.2, "unary": 0.2, "apply": 1.5, "canonicalise": 0.2, "compress": 0.2,
             "observe": 1.5, "dump_load": 0.0, "from_mps": 0.2, "ttns_product": 0.2},
     "C11": {},
+    "C14": {"dump_load": 8.0, "evolve": 1.0, "add": 2.0, "scale": 2.0, "unary": 1.5, "canonicalise": 2.0, "compress": 2.0, "observe": 0.5, "from_mps": 1.0, "max_entangled": 0.5},
     "C05": {"compress": 8.0, "add": 3.0, "apply": 3.0, "observe": 0.5, "evolve": 1.5, "ttns_random": 3.0},
     "C06": {"evolve": 3.0, "add": 3.0, "apply": 3.0, "compress": 2.0, "canonicalise": 2.0, "observe": 0.5, "max_entangled": 0.6},
     "C13": {"evolve": 4.0, "observe": 5.0, "drop": 1.0, "scale": 2.0, "compress": 2.0, "canonicalise": 2.0, "dump_load": 0.6},
